@@ -216,6 +216,40 @@ def main():
     vio_lines = []
     seen = set()
     os.makedirs(rdir, exist_ok=True)
+    # ---- solver counterexamples (status sat) replayed against the real code
+    replayed = set()
+    for g in [g for g in open_goals if g.status == "sat" and getattr(g, "native_replay", None)]:
+        import z3 as _z3
+        sol = _z3.Solver(); sol.set("timeout", 20000)
+        sol.from_string(g.to_smt2())
+        if str(sol.check()) != "sat":
+            continue
+        m = sol.model()
+        req = dict(g.native_replay)
+        val = None
+        for d_ in m.decls():
+            if d_.name() == req["model_var"]:
+                v_ = m[d_]
+                val = v_.as_string() if _z3.is_string_value(v_) else str(v_)
+        if val is None:
+            continue
+        req[req["as"]] = val
+        env = dict(os.environ, VERIF_REPO=a.repo); env.pop("PYTHONPATH", None)
+        pr = subprocess.run([VENV_PY, os.path.join(HERE, "bounded", "replay_lemma.py"), json.dumps(req)], capture_output=True, text=True, env=env, cwd=SCRATCH if os.path.isdir(SCRATCH) else "/var/tmp")
+        try:
+            rr = json.loads(pr.stdout.strip().splitlines()[-1])
+        except Exception:
+            rr = {"reproduced": False, "detail": (pr.stdout + pr.stderr)[-300:]}
+        if rr.get("reproduced"):
+            name = re.sub(r"[^A-Za-z0-9_.=+-]+", "_", g.name)[:120]
+            path = os.path.join(rdir, "counterexample_" + name + ".json")
+            json.dump({"property": a.prop, "kind": "solver-counterexample-replayed-natively", "obligation": g.name,
+                       "counterexample": {req["model_var"]: val}, "native": rr, "replay_request": req,
+                       "replay_cmd": "VERIF_REPO=%s %s %s '%s'" % (a.repo, VENV_PY, os.path.join(HERE, "bounded", "replay_lemma.py"), json.dumps(req))},
+                      open(path, "w"), indent=1)
+            vio_lines.append("VIOLATION property=%s replay=%s" % (a.prop, path))
+            replayed.add(g.name)
+    changed = [g for g in changed if g.name not in replayed]
     for f in violations:
         kk = f["clause"] + "|" + f["klass"]
         if kk in seen:
